@@ -81,6 +81,7 @@ struct FileSt {
     std::atomic<uint64_t> fault_seq{0};             // bumped when the source injects a failure / short read on this file
     std::atomic<uint64_t> evict_seq{0};             // bumped after pool->evict(name) returned
     std::atomic<uint64_t> src_reads_phase{0};       // source reads on this file under the current pool instance
+    std::atomic<uint8_t> sourced[800];              // per 4 KiB block: read from the source under the current pool instance
     std::atomic<int> inflight{0};                   // reads (and prefetches) of this file in flight
     std::atomic<int> trim_active{0};
     std::atomic<IFile*> shared{nullptr};
@@ -173,6 +174,8 @@ public:
         auto R = current_reader();
         c_src_reads.add();
         F.src_reads_phase.fetch_add(1, vh::MO);
+        if (offset >= 0)
+            for (uint64_t b = offset / 4096; b <= (offset + (total ? total - 1 : 0)) / 4096 && b < 800; ++b) F.sourced[b].store(1, vh::MO);
         if (R) {
             if (R->n_src < 16) { R->src[R->n_src].off = offset; R->src[R->n_src].len = total; }
             R->n_src++;
@@ -423,7 +426,12 @@ static void do_read(Reader& R, vh::Rng& r, IFile* file, int f, uint64_t off, con
             // where did the bytes come from?
             if (R.n_src == 0) {
                 c_hit.add();
-                if (g_phase > 0 && F.src_reads_phase.load(vh::MO) == 0) c_reuse_hit.add();
+                if (g_phase > 0) {
+                    // none of these blocks came from the source under this pool instance: a previous instance left them
+                    bool fresh = false;
+                    for (uint64_t b = off / 4096; b <= (off + expect - 1) / 4096 && b < 800; ++b) fresh |= F.sourced[b].load(vh::MO) != 0;
+                    if (!fresh) c_reuse_hit.add();
+                }
             } else {
                 // bytes of the request covered by this read's own source reads
                 std::vector<std::pair<uint64_t, uint64_t>> iv;
@@ -502,7 +510,7 @@ static uint64_t gen_len(vh::Rng& r) {
 static std::vector<size_t> gen_split(vh::Rng& r, uint64_t len, int& api) {
     std::vector<size_t> out;
     int nseg;
-    if (g_cfg.bigiov) nseg = r.range(28, 64);
+    if (g_cfg.bigiov) nseg = 64;     // 29..44 segments overflow inside the IOVector object only (unseen by ASan, later fallout varies)
     else {
         int k = r.below(10);
         nseg = k < 5 ? 1 : k < 8 ? r.range(2, 4) : r.range(5, 27);      // IOVector in the read path holds at most 27 (see bigiov section)
@@ -637,6 +645,7 @@ static void create_fs(vh::Rng& r) {
     c_phases.add();
     for (int f = 0; f < g_cfg.nfiles; ++f) {
         g_files[f].src_reads_phase.store(0, vh::MO);
+        for (auto& b : g_files[f].sourced) b.store(0, vh::MO);
         IFile* h = (!g_cfg.opens || r.chance(2, 3)) ? open_cached(f) : nullptr;
         if (h && !g_cfg.opens) { char c; h->pread(&c, 1, 0); }       // the store learns the source size before the readers start
         g_files[f].shared.store(h, std::memory_order_release);
@@ -695,7 +704,12 @@ int main(int argc, char** argv) {
     vh::Rng r(g_seed);
     auto& C = g_cfg;
     {
-        auto sec = A.gets("section", "main");
+#ifndef H_CACHE_SECTION
+#define H_CACHE_SECTION "main"
+#endif
+        // the targeted probes are built as harnesses of their own (h_cache_<section>.cpp include this file) so that the
+        // driver gives their executions their own identity / scratch directory
+        auto sec = A.gets("section", H_CACHE_SECTION);
         C.section = sec == "bigiov" ? 1 : sec == "trimpast" ? 2 : sec == "relrace" ? 3 : 0;
         C.bigiov = C.section == 1;
     }
@@ -799,7 +813,7 @@ int main(int argc, char** argv) {
     if (system(("mkdir -p '" + scratch + "/media'").c_str())) vh::machinery_failure("cannot create the scratch media directory");
     g_media_root = scratch + "/media";
 
-    vh::config("section", A.gets("section", "main"));
+    vh::config("section", A.gets("section", H_CACHE_SECTION));
     vh::config("vcpus", C.nv); vh::config("readers_per_vcpu", C.rpv); vh::config("files", C.nfiles); vh::config("phases", C.phases);
     vh::config("refill_unit", C.unit); vh::config("hole_tracking", C.mode == 2 ? "fiemap" : C.mode == 1 ? "rangemap" : "probe");
     vh::config("capacity_gb", C.cap_gb); vh::config("disk_floor", C.floor_bytes ? "huge" : "0"); vh::config("period_us", C.period_us);
@@ -895,6 +909,23 @@ int main(int argc, char** argv) {
                 for (int i = 0; i < g_nreaders; ++i) { g_readers[i].id = i; g_readers[i].vcpu = i % C.nv; }
                 g_readers_left.store(g_nreaders, std::memory_order_release);
                 create_fs(pr);
+                if (ph > 0) {
+                    // first reads under a pool instance that reuses the directory, before anything else runs
+                    auto& R = g_readers[0];
+                    R.th.store(photon::CURRENT, std::memory_order_release);
+                    for (int f = 0; f < C.nfiles; ++f) {
+                        IFile* h = g_files[f].shared.load(std::memory_order_acquire);
+                        IFile* tmp = (!h && C.opens) ? open_cached(f) : nullptr;
+                        if (!h) h = tmp;
+                        for (int k = 0; h && k < 6; ++k) {
+                            int api = 0;
+                            auto split = gen_split(pr, gen_len(pr), api);
+                            do_read(R, pr, h, f, gen_offset(pr, g_files[f]), split, api);
+                        }
+                        delete tmp;
+                    }
+                    R.th.store(nullptr, std::memory_order_release);
+                }
             }
             bar.wait();
             std::vector<join_handle*> jh;
